@@ -128,6 +128,12 @@ def wrapper_cases(chk, n_cases):
                     impls.append((desc, {"one": canon_out(got)}))
                 else:
                     xs = [mk() for _ in range(batch)]
+                    if use_names and i % 2 == 0:
+                        # first row keyed exactly in model order (no extra key first), later rows permuted / with the extra key
+                        first = {k: xs[0][k] for k in fnames}
+                        if i % 4 == 0:
+                            first[names_all[-1]] = xs[0][names_all[-1]]
+                        xs[0] = first
                     got = w(xs)
                     singles = [w(xi) for xi in xs]
                     if kind != "scalar" and [canon_out(g) for g in got] != [canon_out(s) for s in singles]:
